@@ -6,6 +6,7 @@
 #     contexts: top level, function with `local a`, subshell.
 import json
 import vlib
+from props import c33_assoc
 
 LEVEL = "model_checking"
 
@@ -146,6 +147,10 @@ def run(ck):
         progs.append({"kind": "prog", "src": src, "exp": "".join(exp), "maxidx": maxidx, "walk": True, "ctx": ctxkind})
     evaluate_progs(ck, progs, h)
     ck.notes["shell_programs"] = len(progs)
+    # ---- (d) associative arrays: the same scheme on spec ShAssoc
+    ck.cov["distinct_nontrivial"] += c33_assoc.run_assoc(ck, h, three_way)
+    ck.cov["rule"] += ("; plus the complete state graph of ShAssoc (associative arrays: set, +=, unset of a key, h=(), "
+                       "h=([k]=v ..), h+=([k]=v), unset h, declare -A) as shell programs in interp and bash and walks in 3 contexts")
     ck.assumptions += ["indices bounded by MaxIdx=%d, three element values" % maxidx, "bash 5.2.15 as the reference shell"]
 
 
@@ -208,5 +213,7 @@ def replay(ck, rec):
         for o in r["outs"]:
             if o["list"] != e["to"]["list"] or (o["ix"] or []) != e["to"]["ix"] or (o["ixnil"] != (e["to"]["ix"] == [])):
                 ck.violation(key, {"vector": v, "impl": o}); return
+    elif v.get("kind") == "assoc":
+        c33_assoc.evaluate(ck, [v], h, three_way)
     else:
         evaluate_progs(ck, [v], h)
